@@ -624,6 +624,9 @@ class C12(Prop):
                 key[k] = d[k]
         if 'function' not in key and case:
             key['function'] = str(case.get('name', '')).split(':')[0]
+        regs = key.get('regimes') or []
+        # |u|^2 over- or underflows inside the class's complex modulus (|u| beyond 1e+-150)
+        key['extreme_modulus'] = any(str(r).endswith((':huge', ':tiny')) for r in regs)
         return key
 
 
